@@ -12,6 +12,7 @@ mod util {
     pub(crate) mod priority_queue;
     pub(crate) mod sync_cell;
     pub(crate) mod task_set;
+    pub(crate) mod slot;
 }
 mod channel {
     pub(crate) mod queue;
@@ -38,6 +39,7 @@ mod executor {
 
 mod async_event;
 mod aescen;
+mod slotscen;
 mod seqops;
 mod slscen;
 mod tscen;
